@@ -15,7 +15,7 @@ SCALARS = {
 }
 
 # module names with prefix relations and same leaf names in different packages
-NAME_POOL = ['src.a', 'src.ab', 'src.a_b', 'src.b', 'src.ba', 'src.c', 'src.cc', 'src.d', 'pkg.a', 'pkg.b', 'src.sub.a', 'src.sub.c']
+NAME_POOL = ['src.a', 'src.ab', 'src.a_b', 'src.b', 'src.ba', 'src.c', 'src.cc', 'src.d', 'pkg.a', 'pkg.b', 'src.sub.a', 'src.sub.c', 'src.src.a', 'pkg.pkg.b', 'pkg.src.c']
 CLASS_POOL = ['K', 'Node', 'B', 'Item', 'Box']
 
 SHAPES = {
@@ -36,24 +36,34 @@ def tag_of(module: str) -> str:
 	return module.replace('.', '_')
 
 
-def build_module(module: str, cls: str, vtype: str, lit: str, deps: list[dict[str, Any]], *, extra_fn: bool = False, extra_field: bool = False, with_enum: bool = False, alias: bool = False, dict_local: bool = False, syntax_error: bool = False, wide: bool = False, doc: bool = False) -> str:
+def build_module(module: str, cls: str, vtype: str, lit: str, deps: list[dict[str, Any]], *, extra_fn: bool = False, extra_field: bool = False, with_enum: bool = False, alias: bool = False, dict_local: bool = False, syntax_error: bool = False, wide: bool = False, doc: bool = False, generic: bool = False) -> str:
 	"""deps: [{'module', 'cls', 'tag', 'deps': [ {'tag','cls'} ... ]}] — what this variant imports."""
 	tag = tag_of(module)
 	lines: list[str] = []
 	if with_enum:
 		lines.append('from enum import Enum')
+	if generic:
+		lines.append('from typing import Generic, TypeVar')
 	for d in deps:
 		name = d['cls']
 		if alias and name == cls:
-			lines.append(f"from {d['module']} import {name} as {name}_{d['tag']}, make_{d['tag']}" + (f", wide_{d['tag']}" if d.get('wide') else ''))
+			lines.append(f"from {d['module']} import {name} as {name}_{d['tag']}, make_{d['tag']}" + (f", wide_{d['tag']}" if d.get('wide') else '') + (f", IntHolder_{d['tag']}, make_tree_{d['tag']}" if d.get('generic') else ''))
 		else:
-			lines.append(f"from {d['module']} import {name}, make_{d['tag']}" + (f", wide_{d['tag']}" if d.get('wide') else ''))
+			lines.append(f"from {d['module']} import {name}, make_{d['tag']}" + (f", wide_{d['tag']}" if d.get('wide') else '') + (f", IntHolder_{d['tag']}, make_tree_{d['tag']}" if d.get('generic') else ''))
 
 	def dep_cls(d: dict[str, Any]) -> str:
 		return f"{d['cls']}_{d['tag']}" if alias and d['cls'] == cls else d['cls']
 
 	if lines:
 		lines += ['', '']
+	if generic:
+		# own generic class, concrete subclass reading the inherited template-typed field, quoted forward reference G['L'] to a class declared later
+		lines += [f"T_{tag} = TypeVar('T_{tag}')", '', '',
+			f'class Holder_{tag}(Generic[T_{tag}]):', f'\tvalue: T_{tag}', '', f'\tdef __init__(self, value: T_{tag}) -> None:', '\t\tself.value = value', '', f'\tdef get(self) -> T_{tag}:', '\t\treturn self.value', '', '',
+			f'class IntHolder_{tag}(Holder_{tag}[int]):', '\tcount: int', '', '\tdef __init__(self, value: int) -> None:', '\t\tsuper().__init__(value)', '\t\tself.count = 0', '', '',
+			f'class Tree_{tag}:', '\tn: int', '', '\tdef __init__(self) -> None:', '\t\tself.n = 0', '', f"\tdef first(self) -> 'Holder_{tag}[Leaf_{tag}]':", f'\t\treturn Holder_{tag}(Leaf_{tag}())', '', '',
+			f'class Leaf_{tag}:', '\tm: int', '', '\tdef __init__(self) -> None:', '\t\tself.m = 1', '', '',
+			f'def make_tree_{tag}() -> Tree_{tag}:', f'\treturn Tree_{tag}()', '', '']
 	if with_enum:
 		lines += [f'class Kind_{tag}(Enum):', '\tA = 0', '\tB = 1', '', '']
 	lines.append(f'class {cls}:')
@@ -118,8 +128,22 @@ def build_module(module: str, cls: str, vtype: str, lit: str, deps: list[dict[st
 		lines.append("\ttxt = '''first")
 		lines.append("second line'''")
 		lines.append('\ttxt2 = txt')
+	if generic:
+		lines.append(f'\thh = IntHolder_{tag}(k)')
+		lines.append('\thv = hh.value')
+		lines.append('\thw = hv')
+		lines.append(f'\ttf = make_tree_{tag}().first()')
+		lines.append('\tlm = tf.value.m')
 	for d in deps:
 		t = d['tag']
+		if d.get('generic'):
+			lines.append(f'\thh_{t} = IntHolder_{t}(k)')
+			lines.append(f'\thv_{t} = hh_{t}.value')
+			lines.append(f'\thw_{t} = hv_{t}')
+			lines.append(f'\thg_{t} = hh_{t}.get()')
+			lines.append(f'\ttf_{t} = make_tree_{t}().first()')
+			lines.append(f'\tlf_{t} = tf_{t}.value')
+			lines.append(f'\tlm_{t} = lf_{t}.m')
 		if d.get('wide'):
 			lines.append(f"\two_{t} = wide_{t}(0, 'a', 1.5, [1], {{'k': 1}}, True, make_{t}(), ['s'], {{'k': [1]}}, 2.5, [make_{t}()], make_{t}().value)")
 			lines.append(f'\two2_{t} = wo_{t}')
@@ -143,18 +167,18 @@ def build_module(module: str, cls: str, vtype: str, lit: str, deps: list[dict[st
 	return '\n'.join(lines) + '\n'
 
 
-def gen_pool(rng: random.Random, shape: str | None = None, n_variants: int | None = None, allow_invalid: bool = True, wide_p: float = 0.4, doc_p: float = 0.4) -> dict[str, Any]:
+def gen_pool(rng: random.Random, shape: str | None = None, n_variants: int | None = None, allow_invalid: bool = True, wide_p: float = 0.4, doc_p: float = 0.4, generic_p: float = 0.35, names: list[str] | None = None) -> dict[str, Any]:
 	"""Returns {'shape', 'modules': [names, index 0 = top], 'variants': {name: [ {src, imports, note} ]}, 'order': names}."""
 	shape = shape or rng.choice(sorted(SHAPES))
 	n, edges = SHAPES[shape]
-	names = rng.sample(NAME_POOL, n)
+	names = list(names) if names else rng.sample(NAME_POOL, n)
 	same_cls = rng.random() < 0.3
 	classes = [rng.choice(CLASS_POOL) if not same_cls else 'B' for _ in range(n)]
 	if not same_cls:
 		# distinct class names unless aliasing is exercised
 		classes = rng.sample(CLASS_POOL, n) if n <= len(CLASS_POOL) else classes
 	alias = same_cls
-	flags = [{'with_enum': rng.random() < 0.35, 'dict_local': rng.random() < 0.4, 'wide': rng.random() < wide_p, 'doc': rng.random() < doc_p} for _ in range(n)]
+	flags = [{'with_enum': rng.random() < 0.35, 'dict_local': rng.random() < 0.4, 'wide': rng.random() < wide_p, 'doc': rng.random() < doc_p, 'generic': rng.random() < generic_p} for _ in range(n)]
 	deps_of = {i: [j for (a, j) in edges if a == i] for i in range(n)}
 
 	def dep_specs(i: int, dropped: set[int] = frozenset()) -> list[dict[str, Any]]:
@@ -162,7 +186,7 @@ def gen_pool(rng: random.Random, shape: str | None = None, n_variants: int | Non
 		for j in deps_of[i]:
 			if j in dropped:
 				continue
-			out.append({'module': names[j], 'cls': classes[j], 'tag': tag_of(names[j]), 'wide': flags[j]['wide'], 'deps': [{'tag': tag_of(names[e]), 'cls': classes[e]} for e in deps_of[j]]})
+			out.append({'module': names[j], 'cls': classes[j], 'tag': tag_of(names[j]), 'wide': flags[j]['wide'], 'generic': flags[j]['generic'], 'deps': [{'tag': tag_of(names[e]), 'cls': classes[e]} for e in deps_of[j]]})
 		return out
 
 	variants: dict[str, list[dict[str, Any]]] = {}
@@ -224,4 +248,4 @@ def fixed_pool(which: int = 0) -> dict[str, Any]:
 	"""Small deterministic pools for canonical short histories and enumeration passes."""
 	shapes = ['chain3', 'diamond', 'chain2', 'vee']
 	rng = random.Random(FIXED_POOL_SEEDS[which % 4])
-	return gen_pool(rng, shape=shapes[which % 4], n_variants=3, allow_invalid=False, wide_p=1.0 if which % 2 == 0 else 0.5, doc_p=1.0 if which % 2 == 0 else 0.5)
+	return gen_pool(rng, shape=shapes[which % 4], n_variants=3, allow_invalid=False, wide_p=1.0 if which % 2 == 0 else 0.5, doc_p=1.0 if which % 2 == 0 else 0.5, generic_p=1.0 if which % 2 == 0 else 0.5)
